@@ -28,7 +28,7 @@ func (e *Engine) newCtx(fn *ssa.Function, ct *FuncContract) *FnCtx {
 		heapNames: map[string]Sort{}, subFuncs: map[string]int{}, funcRefs: map[string]bool{}, typeTags: map[string]int{},
 		strLits: map[string]Term{}, strLitText: map[string]string{}, abstracted: map[string]bool{}, assumptions: map[string]bool{},
 		trusted: map[string]bool{}, frameWrites: map[string][]Term{}, oblCount: map[string]int{}, checks: map[string]bool{},
-		usedContracts: map[string]bool{}, subRoots: map[string]Term{}}
+		usedContracts: map[string]bool{}, subRoots: map[string]Term{}, trustedCalls: map[string]int{}}
 	if ct != nil {
 		c.modeBV = ct.Modes["bv"]
 		c.modeFP = ct.Modes["fp"]
@@ -75,6 +75,7 @@ func (e *Engine) VerifyFunc(key string) (res *FnResult) {
 		fr.regs[p] = v
 		c.assumeAllocatedSV(st, v, p.Type())
 		c.watchValue("param "+p.Name(), v)
+		c.watchFields(st, p.Name(), v, p.Type())
 		if i == 0 && fn.Signature.Recv() != nil {
 			if s, ok := v.(Sc); ok {
 				if _, isPtr := p.Type().Underlying().(*types.Pointer); isPtr {
@@ -141,6 +142,30 @@ func (e *Engine) VerifyFunc(key string) (res *FnResult) {
 	res.UsedContracts = sortedKeys(c.usedContracts)
 	res.Spawns = c.spawns
 	return
+}
+
+// watchFields asks for the entry values of the scalar fields of an object parameter.
+func (c *FnCtx) watchFields(st *State, name string, v SV, t types.Type) {
+	pt, ok := t.Underlying().(*types.Pointer)
+	if !ok {
+		return
+	}
+	s := structOf(pt.Elem())
+	ref, isRef := v.(Sc)
+	if s == nil || !isRef {
+		return
+	}
+	for i := 0; i < s.NumFields(); i++ {
+		f := s.Field(i)
+		if c.scalarSort(f.Type()) == "" {
+			continue
+		}
+		if _, isFn := f.Type().Underlying().(*types.Signature); isFn {
+			continue
+		}
+		fv := c.loadLoc(st, fieldLoc(pt.Elem(), i, ref.T))
+		c.watchValue(name+"."+f.Name(), fv)
+	}
 }
 
 func (c *FnCtx) watchValue(name string, v SV) {
